@@ -23,7 +23,7 @@ func (g *Gen) vacuityObs() []*Oblig {
 }
 
 func (g *Gen) cover(label string) {
-	o := &Oblig{Name: g.fnName + "/cover#" + label, Kind: "vacuity", Fn: g.fnName, Guard: g.curR, Prop: "false", Ctx: len(g.defs), Desc: "reachability of " + label + " (must be satisfiable)", gen: g}
+	o := &Oblig{Name: g.fnName + "/cover#" + label, Kind: "vacuity", Fn: g.fnName, Guard: g.curR, Prop: "false", Ctx: len(g.defs), Desc: "reachability of " + label + " (must be satisfiable)", gen: g, RetID: g.inRet}
 	g.covers = append(g.covers, o)
 }
 
